@@ -227,7 +227,8 @@ fn exp_changelog(m: &Model) -> Exp {
 }
 
 fn well_formed_components(dirs: &[Vec<u8>], bases: &[Vec<u8>]) -> bool {
-    dirs.iter().all(|d| d.ends_with(b"/") && d.starts_with(b"/")) && bases.iter().all(|b| !b.contains(&b'/'))
+    // absolute directory names, or the empty one that source packages carry (DIRNAMES = [""])
+    dirs.iter().all(|d| d.is_empty() || (d.ends_with(b"/") && d.starts_with(b"/"))) && bases.iter().all(|b| !b.contains(&b'/'))
 }
 
 fn exp_file_paths(m: &Model) -> Exp {
@@ -736,7 +737,11 @@ fn gen_header_items(r: &mut Rng) -> (Vec<(u32, Val)>, Vec<(u32, Val)>) {
     if r.chance(3, 4) {
         let n = [0usize, 1, 2, 3, 5][r.usize(5)];
         let ndirs = 1 + r.usize(3);
-        let dirs: Vec<Vec<u8>> = (0..ndirs).map(|i| format!("/{}/", ["usr/bin", "etc", "opt/ünï", "a b"][i % 4]).into_bytes()).collect();
+        let mut dirs: Vec<Vec<u8>> = (0..ndirs).map(|i| format!("/{}/", ["usr/bin", "etc", "opt/ünï", "a b"][i % 4]).into_bytes()).collect();
+        if r.chance(1, 6) {
+            // source packages list their files with one empty directory name
+            dirs[0] = Vec::new();
+        }
         let algo8 = items.iter().any(|(t, v)| *t == tag::FILEDIGESTALGO && matches!(v, Val::Int32(x) if x.first() == Some(&8)));
         let dig = |r: &mut Rng| -> Vec<u8> {
             match r.below(5) {
